@@ -16,9 +16,7 @@ func checkC09(e *RunEnv) *CheckResult {
 	}
 	spellings := []string{"", ".", "@ROOT@/d/x", "@ROOT@/d", "../root/g", "@ROOT@", "d/", "./d", "d/.", "./g", "d//x", "nonexist/../g"}
 	args := []string{"d/x", "d/y", "ad/x", "d.c", "a(b", "g", "d0", "n", "big", "d", "ad", "d/s", "d/s/t", "nope", "d/nope"}
-	if e.Thorough() {
-		args = append(spellings, args...)
-	}
+	coreArgs := args
 	pairs := [][]string{{"d/x", "ad/x"}, {"d", "g"}, {"g", "nope"}, {"nope", "g"}, {"g", "n"}, {"d/y", "d"}, {"d/n2", "d"}, {"d/s", "d"}}
 	var base []Step
 	base = append(base, seedS0()...)
@@ -39,6 +37,10 @@ func checkC09(e *RunEnv) *CheckResult {
 		Steps: func(n *Node) []Step {
 			a := n.Abs()
 			var steps []Step
+			args := coreArgs
+			if e.Thorough() && n.Depth <= 1 {
+				args = append(append([]string{}, spellings...), coreArgs...)
+			}
 			for _, x := range args {
 				t := pathArgTags(a, []string{x})
 				steps = append(steps, Run("restore", x).WithTags(t...), Run("restore", "--staged", x).WithTags(t...))
